@@ -58,6 +58,18 @@ def inplace_if(v):
 from ..lib import else_stmts  # noqa: E402
 
 
+def _is_iter_element(v, t):
+    """t is an element, or a component X[k] of an element, of something that is iterated over (`for k, r in d.items()`)"""
+    h = v.ctx.head_of(t)
+    if h and h[0] == "iter":
+        return True
+    if h and h[0] == "sub":
+        b, i = v.ctx.args_of(t)
+        hb = v.ctx.head_of(b)
+        return bool(hb and hb[0] == "iter") and i.const() is not None
+    return False
+
+
 def bind_args(repo, callee_qual, c):
     """decode_call result of a method call -> {param: Rat} (receiver excluded)"""
     name, pos, kw = c
@@ -497,7 +509,7 @@ def mesh_siblings(chk, pid, only=None):
                 region_calls.append(rec)
             else:
                 h = v.ctx.head_of(recv)
-                if v.ctx.type_of(recv) == REGION and h and h[0] in ("iter", "unpack"):
+                if v.ctx.type_of(recv) == REGION and h and (h[0] == "iter" or _is_iter_element(v, recv)):
                     sub_calls.append(rec)
         chk.require(region_calls and sub_calls, f"{q}: calls transforming the region / the subregions not found")
         # each form must transform both
@@ -534,7 +546,7 @@ def mesh_siblings(chk, pid, only=None):
                 item = v.ctx.args_of(sg)[0]
                 key, val = v.ctx.args_of(item)
                 ok = any(v.eq(val, v.term(x["call"], at=x["st"])) for x in sub_calls) and \
-                    (v.ctx.head_of(key) or ("",))[0] == "unpack"
+                    _is_iter_element(v, key)
             chk.ob(f"{q}::copy::kw=subregions", ok, f"{pid}.siblings",
                    f"subregions={v.show(sg)[:160]}: must map every name to its transformed subregion", v.f, r)
             chk.ob(f"{q}::copy::kw=bc", a.get("bc") is not None and v.eq(a["bc"], v.spec("self.bc")), f"{pid}.siblings",
